@@ -246,7 +246,8 @@ Definition pffi (name : string) (args : list (VM.Value.value Z)) : VM.Value.res 
   else VM.Exec.zffi name args.
 
 Definition pops : VM.Value.ops Z :=
-  {| VM.Value.q_neg := Z.opp; VM.Value.q_fact := VM.Exec.zfact; VM.Value.q_arith := VM.Exec.zarith;
+  {| VM.Value.q_unit := fun _ => 1%Z;   (* never reached: unit identifiers are outside the fragment *)
+     VM.Value.q_neg := Z.opp; VM.Value.q_fact := VM.Exec.zfact; VM.Value.q_arith := VM.Exec.zarith;
      VM.Value.q_cmp := VM.Exec.zcmp; VM.Value.q_eqb := Z.eqb; VM.Value.q_show := VM.Exec.show_q;
      VM.Value.fmt_spec := fun _ _ => VM.Value.Err "unmodelled-format-specifier";
      VM.Value.ffi := pffi; VM.Value.proc := VM.Exec.zproc;
